@@ -13,6 +13,7 @@ var concPrograms = []string{
 	"[3,1,2].kh(2) + [5,6].sum()", "x = [1,2,3]; x.push(4); x.len()", "{'a':1,'b':2}.keys().len()", "2d6 + d20",
 	"(1 + ", "func f(a){a*2}; f(21)", "&c = d6; c + c", "`a{1+1}b`", "[1,2,3,4,5].shuffle()", "toStr(1.5) + repr('x')",
 	"if 1 { 2 } else { 3 }", "1 +* 2", "[4,5,6].len() * [7].len()", "y = {'k': [1,2]}; y.k.push(3); y.k.sum()",
+	"", " ", "#", "\n(", "1 +\n", "'abc",
 	"&cv = 2d4; cv.compute() + 1", "[9,8,7].kl(2)", "'abc'[1] + 'x'", "3 +", "i = 0; while i < 5 { i = i + 1 }; i", "[1,2,3].rand() > 0",
 }
 
@@ -49,6 +50,10 @@ func concLine(t []string) string {
 	iters, _ := atoi(t[3])
 	seeded := t[4] == "1"
 	res := make([][]string, n)
+	// the package-level default language is the host's business: a VM's own configured language decides its messages,
+	// so the concurrent phase and the reference phase run under DIFFERENT package-level settings
+	ds.SetParseErrorLanguage(int(base) % 3)
+	defer ds.SetParseErrorLanguage(ds.ParseErrorLanguageBilingual)
 	var wg sync.WaitGroup
 	start := make(chan struct{})
 	for i := 0; i < int(n); i++ {
@@ -65,6 +70,7 @@ func concLine(t []string) string {
 		return fmt.Sprintf("ok unseeded goroutines=%d runs=%d", n, int(n)*int(iters))
 	}
 	var bad []string
+	ds.SetParseErrorLanguage((int(base) + 1) % 3)
 	for i := 0; i < int(n); i++ {
 		alone := concOne(i, base, int(iters), true)
 		for k := range alone {
